@@ -141,7 +141,8 @@ def run_document(ctx, seed_key, profile=None, npackets=25, sample=False):
             ctx.violation("single/" + mech, msg, {"doc_seed": seed_key, "raw": r, "path": o.path, "model_status": o.status,
                                                   "model_detail": o.detail, "error_at": o.error_at,
                                                   "items": [(n, v.value, v.raw) for n, v in o.items][-6:]})
-    good = [(r, o) for r, o in zip(raws, outs) if o.status in ("ok", "unrecognized") and o.consumption in ("exact", "under")]
+    good = [(r, o) for r, o in zip(raws, outs) if o.status in ("ok", "unrecognized") and o.consumption in ("exact", "under")
+            and not harness.has_dontcare(o)]
     if good:
         kinds = ["bytes", "file", "socket"]
         for j, yu in enumerate((False, True)):
